@@ -59,7 +59,7 @@ def run(rep, tier, seed):
     b = Batch(rep)
     sem = CoAPParser(interpret_options=CoAPOptionMode.SEMANTIC)
     syn = CoAPParser()
-    n = 500 if tier == 'quick' else 6000
+    n = 1200 if tier == 'quick' else 12000
     for i in range(n):
         k = rnd.choice([0, 1, 1, 2, 3, 5])
         opts = []
